@@ -5,6 +5,7 @@ From V.C15 Require Model Engine.
 From V.C17 Require Model Proofs Timed Ingress.
 From V.gen Require C16Tables.
 From V.Ts Require Model Proofs Answers.
+From V.Link Require C16_Time.
 From V.C16 Require Import Model Proofs Obl Bound Chan Exec Time Compose Comp CompTime EngineRef HandleModel Handle Quorum Link.
 Import ListNotations.
 Open Scope N_scope.
@@ -476,3 +477,11 @@ Check (C16_link_dial_answers :
 Check (C16_default_config :
   1 <= V.gen.Consts.PARALLELISM_FACTOR /\ 0 < V.gen.Consts.KAD_READ_TIMEOUT_SECS /\
   0 < V.gen.Consts.KAD_WRITE_TIMEOUT_SECS).
+Check (C16_service_open_wait_unbounded :
+  forall D,
+  V.Ts.Model.feasible 2 V.Ts.Model.env0 (V.Ts.Model.init true 1000 0) (V.Link.C16_Time.wait_tr D) = true /\
+  In (V.Ts.Model.OCmd 1 0) (concat (V.Ts.Model.run (V.Ts.Model.init true 1000 0) (V.Link.C16_Time.wait_tr D))) /\
+  V.Ts.Model.pfind 0 (V.Ts.Model.s_pend (V.Ts.Model.final (V.Ts.Model.init true 1000 0) (V.Link.C16_Time.wait_tr D))) = Some (0, 1) /\
+  V.Ts.Model.s_now (V.Ts.Model.final (V.Ts.Model.init true 1000 0) (V.Link.C16_Time.wait_tr D)) = D /\
+  V.Ts.Answers.ans_ids (concat (V.Ts.Model.run (V.Ts.Model.init true 1000 0) (V.Link.C16_Time.wait_tr D))) = [] /\
+  0 < V.Ts.Model.strong (V.Ts.Model.final (V.Ts.Model.init true 1000 0) (V.Link.C16_Time.wait_tr D)) 1).
